@@ -344,6 +344,12 @@ def mon_c03(ix: Index):
 
 
 # =============================================================================== C01
+def _unreadable_by_design(ix, e) -> bool:
+    node = ix.nodes.get(e.get("path")) or {}
+    sd = node.get("serdes") or (node.get("cfg") or {}).get("serdes")
+    return sd in ("outage", "writeonly") and e.get("cls") == "ExecutionError"
+
+
 def mon_c01(ix: Index):
     out = []
     n_checked = 0
@@ -380,6 +386,8 @@ def mon_c01(ix: Index):
                     elif e["kind"] == "ret" and st != "SUCCEEDED":
                         out.append(V("C01", "C01/failed-op-returned-value/%s" % e.get("opkind"),
                                      "%s was %s at invocation start but returned a value" % (e["path"], st), e["i"]))
+                    elif e["kind"] == "exc" and st == "SUCCEEDED" and _unreadable_by_design(ix, e):
+                        pass  # the scenario's serdes cannot read the recorded payload back: an error is the correct outcome, another value would not be
                     elif e["kind"] == "exc" and st == "SUCCEEDED" and "InvocationError" not in (e.get("mro") or []) and (e.get("mro") or ["?"])[0] != "BaseException" \
                             and "BaseException" in (e.get("mro") or []) and "Exception" in (e.get("mro") or []):
                         out.append(V("C01", "C01/succeeded-op-raised/%s/%s" % (e.get("opkind"), e["cls"]),
